@@ -20,6 +20,13 @@ ASSUMPTIONS = ["the constellation name string in the metadata is pyrtcm vocabula
 
 
 def o_msm(case):
+    from pv.core import diagnostics
+
+    with diagnostics(bool(case.get('diag'))):
+        return _o_msm(case)
+
+
+def _o_msm(case):
     from pyrtcm import RTCMMessage
     from pyrtcm.rtcmhelpers import parse_4076_201, parse_msm
 
@@ -99,10 +106,17 @@ def o_msm(case):
 def plan_msm(tier, shard, nshards):
     ids = pins.msm_ids()[shard::nshards]
     n = 25 if tier == "quick" else 800
-    return [(i, st.builds(lambda c, lm, o: {**c, "labelmsm": lm, "other": o["payload"]}, gen.messages(i, "small"), st.sampled_from([1, 2]), st.sampled_from(pins.msm_ids()).flatmap(lambda j: gen.messages(j, "small"))), n) for i in ids]
+    return [(i, st.builds(lambda c, lm, o: {**c, "labelmsm": lm, "other": o["payload"]}, gen.messages(i, "small"), st.sampled_from([1, 2]), st.sampled_from(pins.msm_ids()).flatmap(lambda j: gen.messages(j, "small"))).flatmap(lambda c: st.booleans().map(lambda d: {**c, "diag": d})), n) for i in ids]
 
 
 def o_vtec(case):
+    from pv.core import diagnostics
+
+    with diagnostics(bool(case.get('diag'))):
+        return _o_vtec(case)
+
+
+def _o_vtec(case):
     from pyrtcm import RTCMMessage
     from pyrtcm.rtcmhelpers import parse_4076_201, parse_msm
 
@@ -145,10 +159,21 @@ def o_vtec(case):
 
 
 def s_vtec(tier):
+    return st.builds(lambda c, d: {**c, "diag": d}, _s_vtec(tier), st.booleans())
+
+
+def _s_vtec(tier):
     return st.one_of(gen.messages("4076_201", "mixed"), gen.messages("4076_201", "small"), gen.messages("4076_201", "max"))
 
 
 def o_none(case):
+    from pv.core import diagnostics
+
+    with diagnostics(bool(case.get('diag'))):
+        return _o_none(case)
+
+
+def _o_none(case):
     """helpers on anything that is neither an implemented MSM type nor 4076_201"""
     from pyrtcm import RTCMMessage
     from pyrtcm.rtcmhelpers import parse_4076_201, parse_msm
@@ -177,7 +202,7 @@ def e_none(tier, shard, nshards):
             k += 1
             if k % nshards != shard:
                 continue
-            yield {"payload": (bytes([n >> 4, (n & 0xF) << 4]) + tail).hex()}
+            yield {"payload": (bytes([n >> 4, (n & 0xF) << 4]) + tail).hex(), "diag": bool(k & 1)}
 
 
 def plan_none(tier, shard, nshards):
@@ -186,7 +211,7 @@ def plan_none(tier, shard, nshards):
     n = 3 if tier == "quick" else 60
     out = [(i, gen.messages(i, "small"), n) for i in ids]
     out.append(("unknown", gen.unknown_payloads("small").map(lambda b: {"payload": b.hex()}), 20 if tier == "quick" else 500))
-    return out
+    return [(lab, st.builds(lambda c, d: {**c, "diag": d}, strat, st.booleans()), n) for lab, strat, n in out]
 
 
 def _short(c):
